@@ -16,6 +16,8 @@ pub struct ElfSpec {
     pub notes_before: Vec<(Vec<u8>, u32, usize)>,
     /// a separate, 8-aligned PT_NOTE segment with a GNU property note comes first
     pub property_segment: bool,
+    /// an empty PT_NOTE segment (p_filesz 0) in front of the others: nothing can be read from it
+    pub empty_note_segment: bool,
     pub soname: Option<Vec<u8>>,
     /// the dynamic table is reachable through PT_DYNAMIC / through a SHT_DYNAMIC section
     pub dyn_phdr: bool,
@@ -122,7 +124,7 @@ pub fn build(s: &ElfSpec) -> Built {
         shstr.push(0);
     }
     // ---- layout ---------------------------------------------------------------------------------
-    let nph = if s.has_phdrs { 1 + s.property_segment as usize + (s.note_phdr && !notes.is_empty()) as usize + s.dyn_phdr as usize } else { 0 };
+    let nph = if s.has_phdrs { 1 + s.empty_note_segment as usize + s.property_segment as usize + (s.note_phdr && !notes.is_empty()) as usize + s.dyn_phdr as usize } else { 0 };
     let mut off = ehsize;
     let phoff = if s.has_phdrs { off } else { 0 };
     off += nph * phsize;
@@ -194,6 +196,9 @@ pub fn build(s: &ElfSpec) -> Built {
     };
     if s.has_phdrs {
         ph(&mut w, 1, 5, 0, total_guess, 0x1000);
+        if s.empty_note_segment {
+            ph(&mut w, 4, 4, prop_off, 0, 4);
+        }
         if s.property_segment {
             ph(&mut w, 4, 4, prop_off, prop_seg.len(), 8);
         }
@@ -297,6 +302,7 @@ pub fn gen_spec(r: &mut Rng) -> ElfSpec {
         note_section: r.chance(3, 4),
         notes_before,
         property_segment: r.chance(1, 3),
+        empty_note_segment: Rng::new(r.0 ^ 0x1f83_d9ab_fb41_bd6b).chance(1, 5),
         soname: if r.chance(4, 5) { Some(r.pick(&names).to_vec()) } else { None },
         dyn_phdr: r.chance(3, 4),
         dyn_section: r.chance(3, 4),
